@@ -362,4 +362,374 @@ theorem render_example :
     renderMembers [("crv", sb "Ed25519"), ("kty", sb "OKP"), ("x", sb "AA")] = sb "{\"crv\":\"Ed25519\",\"kty\":\"OKP\",\"x\":\"AA\"}" := by decide
 
 
+
+/-! ## member order -/
+
+/-- what one member does to the visitor's variables -/
+inductive Upd
+  | set (f : Field) (s : Bytes)
+  | use (s : Bytes)
+  | ops (o : Nat)
+  | nop
+
+def Upd.apply : Upd → Acc → Acc
+  | .set .kty s, a => { a with kty := some s }
+  | .set .kid s, a => { a with kid := some s }
+  | .set .alg s, a => { a with alg := some s }
+  | .set .crv s, a => { a with crv := some s }
+  | .set .x s, a => { a with x := some s }
+  | .set .y s, a => { a with y := some s }
+  | .set .d s, a => { a with d := some s }
+  | .set .k s, a => { a with k := some s }
+  | .set .use _, a => a
+  | .set .keyOps _, a => a
+  | .use s, a => a.setUse s
+  | .ops o, a => { a with keyOps := some o }
+  | .nop, a => a
+
+def effect (cfg : Cfg) (m : Bytes × JVal) : Option Upd :=
+  match fieldOf m.1, m.2 with
+  | some .use, .str s => some (.use s)
+  | some .use, _ => none
+  | some .keyOps, .strArr xs => (opsOf xs 0).map .ops
+  | some .keyOps, _ => none
+  | some f, .str s => some (.set f s)
+  | some _, _ => none
+  | none, _ => if cfg.consumeUnknown then some .nop else none
+
+theorem visitStep_eq (cfg : Cfg) (a : Acc) (m : Bytes × JVal) : visitStep cfg a m = (effect cfg m).map (·.apply a) := by
+  rcases m with ⟨k, v⟩
+  cases hf : fieldOf k with
+  | none => simp only [visitStep, effect, hf]; split <;> rfl
+  | some f =>
+    cases f <;> cases v <;> simp [visitStep, effect, hf, Upd.apply] <;> (cases opsOf _ 0 <;> rfl)
+
+
+def Acc.core (a : Acc) : Acc := { a with keyOps := none }
+def Parts.core (p : Parts) : Parts := { p with keyOps := none }
+
+theorem core_apply (u : Upd) (a : Acc) : (u.apply a).core = (u.apply a.core).core := by
+  cases u with
+  | set f s => cases f <;> rfl
+  | use s => simp only [Upd.apply, Acc.setUse]; split <;> rfl
+  | ops o => rfl
+  | nop => rfl
+
+theorem apply_comm_core (u₁ u₂ : Upd) (a : Acc) (h : ∀ f s₁ s₂, u₁ = .set f s₁ → u₂ = .set f s₂ → s₁ = s₂) :
+    (u₂.apply (u₁.apply a)).core = (u₁.apply (u₂.apply a)).core := by
+  cases u₁ with
+  | set f₁ s₁ =>
+    cases u₂ with
+    | set f₂ s₂ =>
+      cases f₁ <;> cases f₂ <;> first | rfl | (have := h _ _ _ rfl rfl; subst this; rfl)
+    | use s => cases f₁ <;> (simp only [Upd.apply, Acc.setUse] <;> split <;> rfl)
+    | ops o => cases f₁ <;> rfl
+    | nop => rfl
+  | use s =>
+    cases u₂ with
+    | set f₂ s₂ => cases f₂ <;> (simp only [Upd.apply, Acc.setUse] <;> split <;> rfl)
+    | use s' => simp only [Upd.apply, Acc.setUse]; (repeat' split) <;> rfl
+    | ops o => simp only [Upd.apply, Acc.setUse]; split <;> rfl
+    | nop => rfl
+  | ops o =>
+    cases u₂ with
+    | set f₂ s₂ => cases f₂ <;> rfl
+    | use s' => simp only [Upd.apply, Acc.setUse]; split <;> rfl
+    | ops o' => rfl
+    | nop => rfl
+  | nop => rfl
+
+
+def Field.name : Field → Bytes
+  | .kty => sb "kty" | .kid => sb "kid" | .alg => sb "alg" | .crv => sb "crv" | .x => sb "x" | .y => sb "y"
+  | .d => sb "d" | .k => sb "k" | .use => sb "use" | .keyOps => sb "key_ops"
+
+theorem fieldOf_name {k : Bytes} {f : Field} (h : fieldOf k = some f) : k = f.name := by
+  unfold fieldOf at h
+  (repeat' split at h) <;> first | (cases h; assumption) | cases h
+
+theorem effect_set {cfg : Cfg} {m : Bytes × JVal} {f : Field} {s : Bytes} (h : effect cfg m = some (.set f s)) :
+    m.1 = f.name := by
+  rcases m with ⟨k, v⟩
+  apply fieldOf_name
+  cases hf : fieldOf k with
+  | none => simp only [effect, hf] at h; split at h <;> cases h
+  | some f' =>
+    cases f' <;> cases v <;> simp [effect, hf] at h <;> first | (exact congrArg _ h.1) | (cases h' : opsOf _ 0 <;> simp [h'] at h)
+
+/-- one loop turn on the variables with `key_ops` erased -/
+def stepC (cfg : Cfg) (o : Option Acc) (m : Bytes × JVal) : Option Acc :=
+  match o, effect cfg m with
+  | some a, some u => some (u.apply a).core
+  | _, _ => none
+
+theorem foldl_stepC_none (cfg : Cfg) (ms : List (Bytes × JVal)) : ms.foldl (stepC cfg) none = none := by
+  induction ms with
+  | nil => rfl
+  | cons m ms ih => simpa [List.foldl, stepC] using ih
+
+theorem visitFrom_core (cfg : Cfg) (a : Acc) (ms : List (Bytes × JVal)) :
+    (visitFrom cfg a ms).map Acc.core = ms.foldl (stepC cfg) (some a.core) := by
+  induction ms generalizing a with
+  | nil => rfl
+  | cons m ms ih =>
+    simp only [visitFrom, List.foldl, visitStep_eq]
+    cases he : effect cfg m with
+    | none => simp [stepC, he, foldl_stepC_none]
+    | some u => simp only [Option.map_some, stepC, he, ih, ← core_apply]
+
+theorem stepC_comm (cfg : Cfg) (o : Option Acc) (x y : Bytes × JVal) (h : x = y ∨ x.1 ≠ y.1) :
+    stepC cfg (stepC cfg o x) y = stepC cfg (stepC cfg o y) x := by
+  rcases h with rfl | hne
+  · rfl
+  · cases o with
+    | none => simp [stepC]
+    | some a =>
+      cases hx : effect cfg x with
+      | none => cases hy : effect cfg y <;> simp [stepC, hx, hy]
+      | some u₁ =>
+        cases hy : effect cfg y with
+        | none => simp [stepC, hx, hy]
+        | some u₂ =>
+          simp only [stepC, hx, hy, ← core_apply]
+          congr 1
+          apply apply_comm_core
+          intro f s₁ s₂ e₁ e₂
+          subst e₁ e₂
+          exact absurd ((effect_set hx).trans (effect_set hy).symm) hne
+
+theorem nodup_keys_inj {ms : List (Bytes × JVal)} (hn : (ms.map (·.1)).Nodup) {x y : Bytes × JVal} (hx : x ∈ ms) (hy : y ∈ ms) :
+    x = y ∨ x.1 ≠ y.1 := by
+  induction ms with
+  | nil => cases hx
+  | cons m ms ih =>
+    simp only [List.map_cons, List.nodup_cons, List.mem_map, not_exists, not_and] at hn
+    rcases List.mem_cons.mp hx with rfl | hx' <;> rcases List.mem_cons.mp hy with rfl | hy'
+    · exact Or.inl rfl
+    · exact Or.inr fun e => hn.1 y hy' e.symm
+    · exact Or.inr fun e => hn.1 x hx' e
+    · exact ih hn.2 hx' hy'
+
+theorem Acc.finish_core (a : Acc) : a.finish.map Parts.core = a.core.finish := by
+  unfold Acc.finish Acc.core
+  cases a.kty <;> rfl
+
+theorem visit_core (cfg : Cfg) (ms : List (Bytes × JVal)) :
+    (visit cfg ms).map Parts.core = ((visitFrom cfg {} ms).map Acc.core).bind Acc.finish := by
+  unfold visit
+  cases visitFrom cfg {} ms with
+  | none => rfl
+  | some a => simpa using Acc.finish_core a
+
+/-- permuting the members of a JWK whose member names are distinct changes nothing but (possibly) the `key_ops` set -/
+theorem visit_order_independent_core (cfg : Cfg) {ms ms' : List (Bytes × JVal)} (hp : ms.Perm ms')
+    (hn : (ms.map (·.1)).Nodup) : (visit cfg ms).map Parts.core = (visit cfg ms').map Parts.core := by
+  rw [visit_core, visit_core, visitFrom_core, visitFrom_core]
+  rw [List.Perm.foldl_eq' hp (fun x hx y hy z => stepC_comm cfg z x y (nodup_keys_inj hn hx hy))]
+
+/-- import never looks at `key_ops` -/
+theorem fromJwkAny_core (cfg : Cfg) (P : Prims) (p : Parts) : fromJwkAny cfg P p.core = fromJwkAny cfg P p := rfl
+
+/-- so the imported key (or the error) does not depend on the member order -/
+theorem import_order_independent (cfg : Cfg) (P : Prims) {ms ms' : List (Bytes × JVal)} (hp : ms.Perm ms')
+    (hn : (ms.map (·.1)).Nodup) : fromMembers cfg P ms = fromMembers cfg P ms' := by
+  have h := visit_order_independent_core cfg hp hn
+  unfold fromMembers
+  cases h1 : visit cfg ms with
+  | none =>
+    cases h2 : visit cfg ms' with
+    | none => rfl
+    | some p' => simp [h1, h2] at h
+  | some p =>
+    cases h2 : visit cfg ms' with
+    | none => simp [h1, h2] at h
+    | some p' =>
+      simp only [h1, h2, Option.map_some, Option.some.injEq] at h
+      show fromJwkAny cfg P p = fromJwkAny cfg P p'
+      rw [← fromJwkAny_core cfg P p, ← fromJwkAny_core cfg P p', h]
+
+/-- the full statement (with `key_ops`) is false: `use` merges into an earlier `key_ops` but is overwritten by a later one -/
+def VisitOrderIndependent (cfg : Cfg) : Prop :=
+  ∀ ms ms' : List (Bytes × JVal), ms.Perm ms' → (ms.map (·.1)).Nodup → visit cfg ms = visit cfg ms'
+
+theorem visit_order_independent_refuted (cfg : Cfg) : ¬ VisitOrderIndependent cfg := by
+  intro h
+  have := h [(sb "kty", .str (sb "OKP")), (sb "use", .str (sb "sig")), (sb "key_ops", .strArr [sb "encrypt"])]
+    [(sb "kty", .str (sb "OKP")), (sb "key_ops", .strArr [sb "encrypt"]), (sb "use", .str (sb "sig"))]
+    (List.Perm.cons _ (List.Perm.swap _ _ _)) (by decide)
+  revert this
+  cases cfg with
+  | mk c e => cases c <;> cases e <;> decide
+
+
+
+/-! ## accepted keys are the keys that were encoded -/
+
+/-- importing secret bytes yields a key of that algorithm whose secret export is the input: never a different key -/
+theorem secret_bytes_roundtrip {cfg : Cfg} {P : Prims} {alg : Alg} {b : Bytes} {k : Key}
+    (h : fromSecretBytes cfg P alg b = .ok k) : k.alg = alg ∧ toSecretBytes k = .ok b ∧ b.length = alg.secretLen := by
+  unfold fromSecretBytes at h
+  (repeat' split at h) <;> first | (cases h; simp_all [toSecretBytes]) | cases h
+
+/-- … and importing the exported secret again gives the same key -/
+theorem secret_bytes_reimport {cfg : Cfg} {P : Prims} {alg : Alg} {b : Bytes} {k : Key}
+    (h : fromSecretBytes cfg P alg b = .ok k) :
+    ∃ s, toSecretBytes k = .ok s ∧ fromSecretBytes cfg P k.alg s = .ok k := by
+  obtain ⟨ha, hs, _⟩ := secret_bytes_roundtrip h
+  exact ⟨b, hs, by rw [ha]; exact h⟩
+
+/-- a key pair is consistent when its public part is the public key of its secret -/
+def Key.Consistent (P : Prims) (k : Key) : Prop :=
+  ∀ d, k.secret = some d → k.alg.isSymmetric = false → P.pubOf k.alg d = some k.pub
+
+theorem fromSecretBytes_consistent {cfg : Cfg} {P : Prims} {alg : Alg} {b : Bytes} {k : Key}
+    (h : fromSecretBytes cfg P alg b = .ok k) : k.Consistent P := by
+  unfold fromSecretBytes at h
+  intro d hd hs
+  (repeat' split at h) <;> first | (cases h; simp_all) | cases h
+
+theorem fromPublicBytes_public_only {P : Prims} {alg : Alg} {b : Bytes} {k : Key}
+    (h : fromPublicBytes P alg b = .ok k) : k.secret = none ∧ k.alg = alg := by
+  unfold fromPublicBytes at h
+  split at h <;> first | (cases h; exact ⟨rfl, rfl⟩) | cases h
+
+
+theorem bind_ok_inv {α β} {r : Res α} {f : α → Res β} {b : β} (h : (r >>= f) = .ok b) : ∃ a, r = .ok a ∧ f a = .ok b := by
+  cases r with
+  | ok a => exact ⟨a, rfl, h⟩
+  | err e => cases h
+  | panic s => cases h
+
+theorem checkPublic_ok {k k' : Key} {pk : Bytes} (h : checkPublic k pk = .ok k') : k' = k ∧ k.pub = pk := by
+  unfold checkPublic at h
+  split at h
+  · cases h; exact ⟨rfl, by assumption⟩
+  · cases h
+
+/-- what an accepted JWK guarantees: with `d`, the key is the pair (d, public key of d) and the encoded public members are
+    that public key (so a mismatched `d`/`x`/`y` is never accepted); without `d` the key has no secret.
+    For the Weierstrass curves the point was checked to be on the curve (`fromAffine` succeeded). -/
+theorem import_checks {cfg : Cfg} {P : Prims} {alg : Alg} {j : Parts} {k : Key} (h : fromJwkParts cfg P alg j = .ok k) :
+    k.Consistent P ∧
+    (j.d = none → k.secret = none) ∧
+    (j.d.isSome → ∃ d, decodeExact j.d alg.secretLen = .ok d ∧ k.secret = some d) ∧
+    (alg.isEc = true → ∃ x y, decodeExact j.x alg.secretLen = .ok x ∧ decodeExact j.y alg.secretLen = .ok y ∧
+        P.fromAffine alg x y = some k.pub) ∧
+    (alg.isEc = false → j.d.isSome → decodeExact j.x alg.pubLen = .ok k.pub) := by
+  unfold fromJwkParts at h
+  split at h
+  · -- EC
+    rename_i hec
+    split at h; · cases h
+    split at h; · cases h
+    obtain ⟨x, hx, h⟩ := bind_ok_inv h
+    obtain ⟨y, hy, h⟩ := bind_ok_inv h
+    split at h
+    · cases h
+    · rename_i pk hpk
+      split at h
+      · rename_i hd
+        obtain ⟨d, hdd, h⟩ := bind_ok_inv h
+        obtain ⟨kp, hkp, h⟩ := bind_ok_inv h
+        split at h
+        · cases h
+        · rename_i heq
+          cases h
+          have heq' : k.pub = pk := by simpa using heq
+          obtain ⟨_, hs, _⟩ := secret_bytes_roundtrip hkp
+          refine ⟨fromSecretBytes_consistent hkp, ?_, ?_, ?_, ?_⟩
+          · intro hn; simp [hn] at hd
+          · intro _; refine ⟨d, hdd, ?_⟩
+            unfold toSecretBytes at hs; split at hs <;> simp_all
+          · intro _; exact ⟨x, y, hx, hy, heq' ▸ hpk⟩
+          · intro hne; simp [hec] at hne
+      · rename_i hd
+        cases h
+        refine ⟨?_, ?_, ?_, ?_, ?_⟩
+        · intro d hd'; cases hd'
+        · intro _; rfl
+        · intro hs; exact absurd hs hd
+        · intro _; exact ⟨x, y, hx, hy, hpk⟩
+        · intro hne; simp [hec] at hne
+  · rename_i hec
+    have hec' : alg.isEc = false := by simpa using hec
+    have hpl : alg = .ed25519 ∨ alg = .x25519 → alg.pubLen = 32 := by rintro (rfl | rfl) <;> rfl
+    have hsl : alg.isEc = false → alg.secretLen = 32 ∨ alg.isSymmetric = true := by cases alg <;> simp [Alg.isEc, Alg.secretLen, Alg.isSymmetric]
+    split at h
+    · -- BLS
+      rename_i hbls
+      have h32 : alg.secretLen = 32 := by cases alg <;> simp_all [Alg.isBls, Alg.secretLen]
+      split at h; · cases h
+      split at h; · cases h
+      obtain ⟨x, hx, h⟩ := bind_ok_inv h
+      split at h
+      · rename_i hd
+        obtain ⟨d, hdd, h⟩ := bind_ok_inv h
+        obtain ⟨kp, hkp, h⟩ := bind_ok_inv h
+        obtain ⟨rfl, hpub⟩ := checkPublic_ok h
+        obtain ⟨_, hs, _⟩ := secret_bytes_roundtrip hkp
+        refine ⟨fromSecretBytes_consistent hkp, ?_, ?_, ?_, ?_⟩
+        · intro hn; simp [hn] at hd
+        · intro _; refine ⟨d, h32 ▸ hdd, ?_⟩
+          unfold toSecretBytes at hs; split at hs <;> simp_all
+        · intro he; simp [hec'] at he
+        · intro _ _; rw [hpub]; exact hx
+      · rename_i hd
+        obtain ⟨hsn, _⟩ := fromPublicBytes_public_only h
+        refine ⟨?_, ?_, ?_, ?_, ?_⟩
+        · intro d hd'; simp [hsn] at hd'
+        · intro _; exact hsn
+        · intro hs; exact absurd hs hd
+        · intro he; simp [hec'] at he
+        · intro _ hs; exact absurd hs hd
+    · split at h
+      · rename_i halg
+        have h32 : alg.secretLen = 32 := by rcases halg with rfl | rfl <;> rfl
+        have hp32 := hpl halg
+        split at h; · cases h
+        split at h; · cases h
+        obtain ⟨x, hx, h⟩ := bind_ok_inv h
+        split at h
+        · rename_i hd
+          obtain ⟨d, hdd, h⟩ := bind_ok_inv h
+          obtain ⟨kp, hkp, h⟩ := bind_ok_inv h
+          obtain ⟨rfl, hpub⟩ := checkPublic_ok h
+          obtain ⟨_, hs, _⟩ := secret_bytes_roundtrip hkp
+          refine ⟨fromSecretBytes_consistent hkp, ?_, ?_, ?_, ?_⟩
+          · intro hn; simp [hn] at hd
+          · intro _; refine ⟨d, h32 ▸ hdd, ?_⟩
+            unfold toSecretBytes at hs; split at hs <;> simp_all
+          · intro he; simp [hec'] at he
+          · intro _ _; rw [hpub, hp32]; exact hx
+        · rename_i hd
+          obtain ⟨hsn, _⟩ := fromPublicBytes_public_only h
+          refine ⟨?_, ?_, ?_, ?_, ?_⟩
+          · intro d hd'; simp [hsn] at hd'
+          · intro _; exact hsn
+          · intro hs; exact absurd hs hd
+          · intro he; simp [hec'] at he
+          · intro _ hs; exact absurd hs hd
+      · cases h
+
+
+/- OPEN: jwk_roundtrip — for every key `k` produced by an import (`Key.Consistent`, lengths as in `Alg.secretLen` / `Alg.pubLen`)
+   and every asymmetric algorithm, `fromJwk cfg P (toJwk k .secretKey none) = .ok k` and
+   `fromJwk cfg P (toJwk k .publicKey none) = .ok {k with secret := none}`, under the curve laws
+   `P.fromAffine alg (pub.take n) (pub.drop n) = some pub` for `pub` in the image of `P.pubOf` and
+   `P.decodePub alg p = some p` for canonical encodings.  The ingredients are proved (`b64_roundtrip`, `import_checks`,
+   `secret_bytes_roundtrip`); what is missing is the parser-correctness lemma `parseJwk cfg (renderMembers ms) = visit cfg ms'`
+   for the encoder's output (no whitespace, no escapes).  The statement is exercised by the harness oracle
+   (`jwk_roundtrip:*` signatures) on every generated key instead.  For symmetric keys the statement is false (D15):
+   `selectAlg` has no `oct` branch — see `oct_import_unsupported`. -/
+
+/-- D15, as a theorem about the model: no JWK with `kty = "oct"` can be imported, whatever else it contains -/
+theorem oct_import_unsupported (cfg : Cfg) (P : Prims) (j : Parts) (h : j.kty = sb "oct") : fromJwkAny cfg P j = .err .unsupported := by
+  have : selectAlg j = none := by
+    unfold selectAlg
+    simp only [h]
+    have h1 : (sb "oct" = sb "OKP") = False := by simp; decide
+    have h2 : (sb "oct" = sb "EC") = False := by simp; decide
+    simp [h1, h2]
+  simp [fromJwkAny, this]
+
 end Askar.Jwk
